@@ -16,7 +16,6 @@ package static
 import (
 	"fmt"
 	"regexp"
-	"strings"
 
 	"github.com/attestantio/dirk/services/checker"
 	"github.com/attestantio/dirk/services/metrics"
@@ -126,17 +125,14 @@ func regexify(name string) (*regexp.Regexp, error) {
 	if name == "" {
 		name = "(?i).*"
 	}
-	// Anchor if required.
-	if !strings.HasPrefix(name, "^") {
-		name = fmt.Sprintf("^%s", name)
+	// The expression must be valid in its own right.
+	if _, err := regexp.Compile(name); err != nil {
+		return nil, err
 	}
-	if !strings.HasSuffix(name, "$") {
-		name = fmt.Sprintf("%s$", name)
-	}
-	// Case insensitivity if required.
-	if !strings.HasPrefix(name, "(?i)") {
-		name = fmt.Sprintf("(?i)%s", name)
-	}
+	// Anchor the whole expression, grouping it so that the anchors apply to every
+	// alternative of the expression rather than just the first and last ones.
+	// Matching is case-insensitive.
+	name = fmt.Sprintf("(?i)^(?:%s)$", name)
 
 	return regexp.Compile(name)
 }
